@@ -17,10 +17,13 @@ from .cauchy import orders_below, splits
 from .exact import GQ, geye, gzeros
 
 
+FLOAT_DTYPE = [complex]  # module-level switch: np.clongdouble gives the float reference ~3 more digits
+
+
 def _kit(exact, N):
     if exact:
         return gzeros((N, N)), geye(N)
-    return np.zeros((N, N), dtype=complex), np.eye(N, dtype=complex)
+    return np.zeros((N, N), dtype=FLOAT_DTYPE[0]), np.eye(N, dtype=FLOAT_DTYPE[0])
 
 
 def _diag(E, exact):
@@ -28,7 +31,7 @@ def _diag(E, exact):
     Z, _ = _kit(exact, N)
     D = Z.copy()
     for i in range(N):
-        D[i, i] = GQ.of(E[i]) if exact else complex(E[i])
+        D[i, i] = GQ.of(E[i]) if exact else FLOAT_DTYPE[0](E[i])
     return D
 
 
@@ -60,7 +63,7 @@ def solve_hermitian(E, terms, S, orders, exact=False, selfcheck=True):
     for o, m in terms.items():
         if tuple(o) != zero:
             H[tuple(o)] = m
-    Ev = np.array([GQ.of(e) if exact else complex(e) for e in E], dtype=object if exact else complex)
+    Ev = np.array([GQ.of(e) if exact else FLOAT_DTYPE[0](e) for e in E], dtype=object if exact else FLOAT_DTYPE[0])
     dE = Ev[:, None] - Ev[None, :]
     sE = Ev[:, None] + Ev[None, :]
     U, Ht = {zero: I}, {}
